@@ -182,6 +182,14 @@ CHECKS = {
         note="Trusted: CPython, family-F renderer/reference for the expected lists, the hand evaluator (mirrors tests/test_for_integrators.py).",
         technique="exhaustive enumeration on the real code: manual evaluation of introspected contract lists vs the wrapper's verdict (differential)",
         design="3/C18"),
+    "C19": dict(
+        text="Exhaustive product misuse kind x decorator kind x callable kind (function, method, static, class method, property "
+             "setter, async function, async method), with legal control cases; every case is executed in three observable stages "
+             "(decorator creation, decoration / class creation, call) and must fail at the documented stage with the documented "
+             "exception class, never silently pass, and must not evaluate the condition or run the body when rejected.",
+        note="Trusted: CPython; the table of documented moments is taken from the property statement.",
+        technique="exhaustive enumeration of the misuse x decorator x callable-kind product, staged execution on the real code",
+        design="3/C19"),
 }
 
 NOT_APPLICABLE = []
